@@ -29,7 +29,7 @@ def repo():
 
 
 CXX = "g++"
-BASE = ["-std=gnu++17", "-g1", "-fno-unsafe-math-optimizations", "-D" + GUARD, "-w"]
+BASE = ["-std=gnu++17", "-g1", "-fno-unsafe-math-optimizations", "-D" + GUARD, "-w", "-pthread"]
 SAN = ["-fsanitize=address,undefined", "-fno-sanitize-recover=all", "-fno-omit-frame-pointer"]
 FLAVOURS = {
     # the flags configure picks (AX_CXX_MINOPT): -O0, no unsafe math
